@@ -85,6 +85,33 @@ fn kernel_digests(seed: u64) -> BTreeMap<String, String> {
         }
         out.insert("batch_util_0_40".into(), h64(&acc));
     }
+    // STARK proofs are fully deterministic under the sequential schedule: whole-proof digests
+    // (recurrence tables and short lookup tables, whose helper columns go through the batch helpers)
+    {
+        use crate::c09::{stark_prove, SCfg};
+        use crate::stark::*;
+        let mut rs = Rng::new(seed ^ 0x57a2c);
+        for k in 0..3 {
+            let log_n = if k == 0 { rs.range(1, 2) } else { rs.range(2, 6) };
+            let inst = loop {
+                let i = if k < 2 { crate::c10::gen_lookup_instance(&mut rs, log_n) } else { gen_instance(&mut rs, log_n, 3, false) };
+                if (i.def.cols, i.def.pis) == (4, 1) {
+                    break i;
+                }
+            };
+            let mut scfg = SCfg::draw(&mut rs, log_n, inst.def.degree, true);
+            scfg.pow_bits = 0;
+            scfg.security_bits = 0;
+            if let Some(scfg) = scfg.admissible(log_n) {
+                Sched::sequential().arm();
+                let d = match stark_prove::<PC, 4, 1>(&inst.def, &scfg.to_config(), &inst.rows, &inst.pis) {
+                    Ok(p) => h64(crate::mutate::canonical(&serde_json::to_value(&p).unwrap()).to_string().as_bytes()),
+                    Err(e) => format!("no proof: {}", e.chars().take(40).collect::<String>()),
+                };
+                out.insert(format!("stark_proof_{k}_2^{log_n}"), d);
+            }
+        }
+    }
     for log in [3usize, 6, 9] {
         let n = 1 << log;
         let coeffs: Vec<F> = (0..n).map(|_| F::from_canonical_u64(r.felt_biased())).collect();
@@ -203,8 +230,17 @@ fn exec_c<C: GenericConfig<D, F = F>>(case: &Case, rep: &mut Report) {
             rep.absorb_seams();
         }
         let diff: Vec<&String> = fd.keys().filter(|k| mine.get(*k) != fd.get(*k)).collect();
-        if !diff.is_empty() {
-            viol(rep, case, "keys_or_intermediates_differ_between_nodes", format!("vs node {from}: {:?}", diff));
+        // a STARK prover that fails in one build only is reported by failure site, everything else generically
+        let (failed, other): (Vec<&String>, Vec<&String>) = diff.into_iter().partition(|k| {
+            k.starts_with("stark_proof") && (fd[*k].starts_with("no proof") || mine.get(*k).map_or(false, |m| m.starts_with("no proof")))
+        });
+        for k in failed {
+            let msg = if fd[k].starts_with("no proof") { fd[k].clone() } else { mine[k].clone() };
+            let site: String = msg.chars().map(|c| if c.is_ascii_digit() { '#' } else { c }).collect();
+            rep.violation("C19", "stark_prover_fails_in_one_build_only", &format!("C19|stark_prover_fails_in_one_build_only|{site}"), format!("{k}: node {from} has '{}', this node '{}'", fd[k], mine.get(k).cloned().unwrap_or_default()), serde_json::to_value(case).unwrap());
+        }
+        if !other.is_empty() {
+            viol(rep, case, "keys_or_intermediates_differ_between_nodes", format!("vs node {from}: {:?}", other));
         }
         for (i, ph) in f["proofs"].as_array().cloned().unwrap_or_default().iter().enumerate() {
             let bytes = unhex(ph.as_str().unwrap_or(""));
